@@ -62,6 +62,16 @@ def hx(s):
     return s.encode("utf-8").hex() or "-"
 
 
+SCRATCH = "\u0001scratch\u0001"      # stands for the components of the scratch directory's absolute path
+
+
+def expand(comps, sc):
+    out = []
+    for c in comps:
+        out += sc.dir.strip("/").split("/") if c == SCRATCH else [c]
+    return out
+
+
 def comps_tok(comps):
     return "~" if not comps else ",".join(hx(c) for c in comps)
 
@@ -116,6 +126,14 @@ class Scratch:
         os.mkdir(self.root)
         with open(self.dir + "/outside.txt", "wb") as f:
             f.write(b"secret outside the root")
+        # neighbours whose absolute path EXTENDS the root's path as a string (a containment test on strings instead
+        # of path components takes them for part of the root)
+        for sib in ("srv-private", "srv2"):
+            os.makedirs(f"{self.dir}/{sib}", exist_ok=True)
+            with open(f"{self.dir}/{sib}/secret.txt", "wb") as f:
+                f.write(b"secret in a sibling directory")
+        with open(self.dir + "/srv.bak", "wb") as f:
+            f.write(b"secret backup beside the root")
         for n in SIZES:
             with open(f"{self.root}/f{n}", "wb") as f:
                 f.write(content_of(n))
@@ -338,7 +356,7 @@ class Runner:
         before = sc.pristine
         results = []
         for step in case["steps"]:
-            comps = list(step["comps"])
+            comps = expand(step["comps"], sc)
             method = step["m"]
             mp = (model_paths or {}).get(tuple(comps))
             # what the OS would say about the path the model computed (model lines only)
@@ -524,6 +542,24 @@ def table_cases():
     return out
 
 
+def sibling_cases():
+    """requests that spell, with a leading empty component, the absolute path of a neighbour of the root whose
+    name extends the root's name (and of the root itself, and of a file inside it)"""
+    out = []
+    targets = [["", SCRATCH, "srv-private", "secret.txt"], ["", SCRATCH, "srv2", "secret.txt"],
+               ["", SCRATCH, "srv.bak"], ["", SCRATCH, "srv-private", ""], ["", SCRATCH, "srv-private", "new.txt"],
+               ["", SCRATCH, "srv", "f16"], ["", SCRATCH, "srv"], ["", SCRATCH, "outside.txt"],
+               ["", "", SCRATCH, "srv2", "secret.txt"], ["d", "", SCRATCH, "srv2", "secret.txt"]]
+    for t in targets:
+        for write in (False, True):
+            base = {"kind": "R", "write": write, "etags": True}
+            out.append({**base, "steps": [{"m": "GET", "comps": t}, {"m": "GET", "comps": t, "b2": [0, 2]}]})
+            out.append({**base, "steps": [{"m": "PUT", "comps": t, "im": [], "inm": False, "plen": 20},
+                                          {"m": "GET", "comps": t}]})
+            out.append({**base, "steps": [{"m": "DELETE", "comps": t, "im": []}, {"m": "GET", "comps": t}]})
+    return out
+
+
 def fetch_cases():
     return [{"kind": "F", "file": f"f{n}", "size": n, "szx": szx} for n in SIZES for szx in range(8)]
 
@@ -688,10 +724,10 @@ def run(env, rep):
         compare(env, rep, pcs, lines, outs, what="request_to_localpath")
 
         # --- R: requests in the scratch tree
-        hist = [c for c in corpus if c.get("kind") == "R"] + table_cases()
+        hist = [c for c in corpus if c.get("kind") == "R"] + table_cases() + sibling_cases()
         fcs = fetch_cases()
         hist += history_cases(env)
-        allcomps = {tuple(s["comps"]) for c in hist for s in c["steps"]}
+        allcomps = {tuple(expand(s["comps"], runner.sc)) for c in hist for s in c["steps"]}
         allcomps |= {(fc["file"],) for fc in fcs}
         allcomps = sorted(allcomps)
         mouts = env.lean([f"C19 P {runner.root_tok} {comps_tok(c)}" for c in allcomps])
